@@ -8,6 +8,7 @@ import (
 	"os"
 	"sort"
 	"strings"
+	"sync"
 
 	"golang.org/x/tools/go/ssa"
 )
@@ -29,6 +30,7 @@ type frame struct {
 	result    Value
 	panicking bool
 	panicVal  interface{}
+	skipPhis  bool
 }
 
 type nondetRec struct {
@@ -82,6 +84,7 @@ type Exec struct {
 
 	merge *mergeCtx
 	depth int
+	in    *interner
 }
 
 type pathEvent struct {
@@ -184,12 +187,33 @@ func (e *Exec) assume(c *Term) {
 		}
 		return
 	}
+	if e.merge != nil {
+		panic(mergeAbort{"assumption inside pure region"})
+	}
+	c = e.in.intern(c)
+	if v, ok := e.in.known(c); ok {
+		if !v {
+			panic(pathEnd{"assume contradicts the path condition"})
+		}
+		return
+	}
+	e.in.record(c, true)
 	e.pc = append(e.pc, c)
 	if e.pos < len(e.decisions) {
 		return // replaying a prefix whose model satisfies it
 	}
 	if e.hintValid && e.ev.eval(c) == 0 {
 		e.hintValid = false
+	}
+}
+
+// addPC appends a branch literal to the path condition.
+func (e *Exec) addPC(c *Term, take bool) {
+	e.in.record(c, take)
+	if take {
+		e.pc = append(e.pc, c)
+	} else {
+		e.pc = append(e.pc, notT(c))
 	}
 }
 
@@ -228,14 +252,14 @@ func (e *Exec) branch(c *Term) bool {
 	if e.merge != nil {
 		return e.mergeBranch(c)
 	}
+	c = e.in.intern(c)
+	if v, ok := e.in.known(c); ok {
+		return v // decided by the path condition: no decision, no query
+	}
 	if e.pos < len(e.decisions) {
 		take := e.decisions[e.pos] != 0
 		e.pos++
-		if take {
-			e.pc = append(e.pc, c)
-		} else {
-			e.pc = append(e.pc, notT(c))
-		}
+		e.addPC(c, take)
 		return take
 	}
 	e.ensureHint()
@@ -281,11 +305,7 @@ func (e *Exec) branch(c *Term) bool {
 	}
 	e.decisions = append(e.decisions, b2i(take))
 	e.pos++
-	if take {
-		e.pc = append(e.pc, c)
-	} else {
-		e.pc = append(e.pc, notT(c))
-	}
+	e.addPC(c, take)
 	return take
 }
 
@@ -339,9 +359,9 @@ func (e *Exec) concretize(t *Term, max int) uint64 {
 		return t.u()
 	}
 	if t.FD != nil {
-		for _, c := range t.FD {
-			if e.branch(c.G) {
-				return c.V.u()
+		for _, v := range fdValues(t) {
+			if e.branch(eqT(t, cBV(v, t.W))) {
+				return v
 			}
 		}
 		panic(pathEnd{"fd exhausted"})
@@ -384,6 +404,8 @@ func (e *Exec) call(caller *frame, fnv Value, args []Value, pos token.Pos) Value
 		return e.callBuiltin(caller, fn, args)
 	case *rtypeMethod:
 		return e.callRtypeMethod(fn, args)
+	case *ctxMethod:
+		return e.callCtxMethod(fn, args)
 	case Stale:
 		panic(staleRead{fn.Where})
 	}
@@ -401,15 +423,33 @@ func (e *Exec) callSSA(caller *frame, fn *ssa.Function, args []Value, env []Valu
 	return e.callSSAraw(caller, fn, args, env)
 }
 
+type fnInfo struct {
+	name string
+	ext  extFn
+}
+
+var fnInfoCache sync.Map // *ssa.Function -> *fnInfo
+
+func infoOf(fn *ssa.Function) *fnInfo {
+	if v, ok := fnInfoCache.Load(fn); ok {
+		return v.(*fnInfo)
+	}
+	fi := &fnInfo{name: fn.String()}
+	fi.ext = externals[fi.name]
+	fnInfoCache.Store(fn, fi)
+	return fi
+}
+
 func (e *Exec) callSSAraw(caller *frame, fn *ssa.Function, args []Value, env []Value) Value {
-	name := fn.String()
+	fi := infoOf(fn)
+	name := fi.name
 	if fn.Parent() == nil {
 		if strings.HasPrefix(fn.Name(), "verif") && fn.Blocks == nil {
 			return e.verifIntrinsic(caller, fn.Name(), args)
 		}
-		if ext, ok := externals[name]; ok {
+		if fi.ext != nil {
 			e.run.noteExtern(name)
-			return ext(e, caller, args)
+			return fi.ext(e, caller, args)
 		}
 		if fn.Name() == "init" && fn.Pkg != nil && fn.Signature.Recv() == nil && !e.run.isInitPkg(fn.Pkg) {
 			return nil // dependency package initialisers are not run
@@ -434,7 +474,11 @@ func (e *Exec) callSSAraw(caller *frame, fn *ssa.Function, args []Value, env []V
 	fr.block = fn.Blocks[0]
 	for _, l := range fn.Locals {
 		z := zero(l.Type().(*types.Pointer).Elem())
-		fr.env[l] = &z
+		p := &z
+		fr.env[l] = p
+		if e.merge != nil {
+			e.merge.registerCells(p)
+		}
 	}
 	for i, p := range fn.Params {
 		fr.env[p] = args[i]
@@ -482,7 +526,11 @@ func (fr *frame) runFrame() {
 		}
 	}()
 	for {
-		fr.executePhis()
+		if fr.skipPhis {
+			fr.skipPhis = false
+		} else {
+			fr.executePhis()
+		}
 		for _, instr := range fr.block.Instrs {
 			if _, ok := instr.(*ssa.Phi); ok {
 				continue
@@ -660,18 +708,38 @@ func (fr *frame) visit(instr ssa.Instruction) continuation {
 		if addr == nil {
 			panic(nilDeref())
 		}
+		if e.merge != nil && !e.merge.cells[addr] {
+			panic(mergeAbort{"store inside pure region"})
+		}
 		e.store(addr, fr.get(ins.Val))
 	case *ssa.If:
-		if e.branch(fr.term(ins.Cond)) {
+		cond := fr.term(ins.Cond)
+		if !cond.conc() && e.merge == nil && e.run.cfg.mergeOn && !e.run.mergeBanned(ins) {
+			if _, decided := e.in.known(e.in.intern(cond)); !decided {
+				if j := e.run.ipdom(fr.block); j != nil {
+					if fr.mergeRegion(cond, j) {
+						return kJump
+					}
+					e.run.mergeFailed(ins)
+				}
+			}
+		}
+		if e.branch(cond) {
 			return fr.jump(0)
 		}
 		return fr.jump(1)
 	case *ssa.Jump:
 		return fr.jump(0)
 	case *ssa.Defer:
+		if e.merge != nil {
+			panic(mergeAbort{"defer inside pure region"})
+		}
 		fn, args := fr.prepareCall(&ins.Call)
 		fr.defers = &deferred{fn: fn, args: args, tail: fr.defers}
 	case *ssa.Go:
+		if e.merge != nil {
+			panic(mergeAbort{"go inside pure region"})
+		}
 		fn, args := fr.prepareCall(&ins.Call)
 		e.spawn(fr, fn, args)
 	case *ssa.MakeChan, *ssa.Send, *ssa.Select:
@@ -679,10 +747,20 @@ func (fr *frame) visit(instr ssa.Instruction) continuation {
 	case *ssa.Alloc:
 		z := zero(ins.Type().(*types.Pointer).Elem())
 		if ins.Heap {
-			fr.env[ins] = &z
+			p := &z
+			fr.env[ins] = p
+			if e.merge != nil {
+				e.merge.registerCells(p)
+			}
 		} else {
 			addr := fr.env[ins].(*Value)
+			if e.merge != nil && !e.merge.cells[addr] {
+				panic(mergeAbort{"local re-initialised inside pure region"})
+			}
 			*addr = z
+			if e.merge != nil {
+				e.merge.registerCells(addr)
+			}
 		}
 	case *ssa.MakeSlice:
 		n := e.concretize(fr.term(ins.Len), 64)
@@ -764,6 +842,9 @@ func (fr *frame) visit(instr ssa.Instruction) continuation {
 	case *ssa.Lookup:
 		fr.env[ins] = e.lookup(ins, fr.get(ins.X), fr.get(ins.Index))
 	case *ssa.MapUpdate:
+		if e.merge != nil {
+			panic(mergeAbort{"map update inside pure region"})
+		}
 		mv := fr.get(ins.Map)
 		if st, ok := mv.(Stale); ok {
 			panic(staleRead{st.Where})
@@ -839,6 +920,8 @@ func (fr *frame) prepareCall(call *ssa.CallCommon) (Value, []Value) {
 		}
 		if rt, ok := recv.V.(*RType); ok {
 			fn = &rtypeMethod{rt, call.Method.Name()}
+		} else if cn, ok := recv.V.(*ctxNode); ok {
+			fn = &ctxMethod{cn, call.Method.Name()}
 		} else {
 			if fr.e.prog.MethodSets.MethodSet(recv.T).Lookup(call.Method.Pkg(), call.Method.Name()) == nil {
 				panic(abort("method not found: " + recv.T.String() + "." + call.Method.Name()))
